@@ -34,6 +34,7 @@ def run(prog: Program, rep, tier: str) -> None:
     wiring(prog, rep, dc)
     coverage(prog, rep, sd)
     evaluator_passthrough(prog, rep)
+    evaluator_memoryless(prog, rep)
     # the check runs on the TRANSFORMED problem (scaled, slacks added): a correct user problem passes only if the wrapper scales
     # value, first and second derivative consistently - C04's exponent / slack-derivative agreement rules on the same constructs
     from . import c04
@@ -65,6 +66,49 @@ def evaluator_passthrough(prog, rep) -> None:
                 rep.check(v in (want, f"astype({want}, self.dtype)"), "check-sees-user-values", m.qualname, short(r),
                           f"{cname}.{mname} hands on the value of problem.{cb} itself, cast to the working dtype at most (found {v[:90]})", m.loc(r))
     rep.pin("evaluator returns handing on callback values", n, 10)
+
+
+def evaluator_memoryless(prog, rep) -> None:
+    """Evaluator.obj / obj_grad / cons / cons_jac / lag_hess are functions of their arguments: every value they can return is the
+    value of the matching `_eval_*` call on the method's own arguments, made in this call (counting evaluations on the way is
+    fine).  A memo, a cache keyed on part of the arguments, or a remembered previous value makes what the solver sees depend on
+    the evaluation history instead of on (x, y)."""
+    from .common import value_sites
+    ev = prog.cls("pygradflow.eval.Evaluator")
+    n = 0
+    pending = []
+    for name in ("obj", "obj_grad", "cons", "cons_jac", "lag_hess"):
+        m = ev.methods.get(name)
+        if m is None:
+            raise AnalysisError(f"Evaluator.{name} has vanished")
+        ff = facts_for(m)
+        ps = [p for p in m.params if p != "self"]
+        want = f"self._eval_{name}({', '.join(ps)})"
+        undecided = None
+        for st, e in value_sites(m, ff):
+            n += 1
+            rv = ff.resolved(st, e)
+            v = U(rv)
+            if v == want:
+                rep.ok("evaluator-is-memoryless", m.short, f"{short(st, 60)}: the value of {want} computed in this call")
+                continue
+            # a value that was not computed in this call: certainly wrong if it cannot depend on one of the arguments (a memo keyed
+            # on part of them); otherwise whether the remembered value belongs to these arguments is not decidable here
+            used = {k.id for k in ast.walk(rv) if isinstance(k, ast.Name)}
+            missing = [p_ for p_ in ps if p_ not in used]
+            if missing:
+                rep.fail("evaluator-is-memoryless", m.qualname, short(st), f"VIOLATED: Evaluator.{name} can return `{v[:70]}`, a value that was not computed in this call and "
+                         f"does not depend on the argument(s) {missing}: the result for a new {missing[0]} is the one remembered for an earlier {missing[0]}", m.loc(st))
+            else:
+                undecided = undecided or f"Evaluator.{name} can return `{v[:70]}`, a value not computed in this call (memoised evaluator): whether it belongs to the given arguments cannot be decided"
+        if undecided:
+            pending.append(undecided)
+        for c in prog.all_subclasses(ev, include_self=False):
+            if name in c.methods:
+                rep.fail("evaluator-is-memoryless", c.methods[name].qualname, name, f"VIOLATED: {c.name} overrides Evaluator.{name} (the rules look at `_eval_{name}` only)", c.methods[name].loc())
+    rep.pin("evaluator entry points returning their own _eval_* value", n, 5)
+    if pending:
+        raise AnalysisError(pending[0])
 
 
 def non_interference(prog, rep, dc: FuncInfo, sd: FuncInfo, sv: FuncInfo) -> None:
